@@ -454,10 +454,15 @@ void __real_MHD_connection_handle_write (struct MHD_Connection *c);
 enum MHD_Result __real_MHD_connection_handle_idle (struct MHD_Connection *c);
 void __real_MHD_connection_close_ (struct MHD_Connection *c, enum MHD_RequestTerminationCode rtc);
 
+static int free_running (void);
 static void hline (const char *kind, struct MHD_Connection *c, int arg, int ret)
 {
   pthread_mutex_lock (&out_mx);
-  printf ("H %s c=%d arg=%d ret=%d | ", kind, cidx (c), arg, ret); put_snap (); putchar ('\n');
+  printf ("H %s c=%d arg=%d ret=%d | ", kind, cidx (c), arg, ret);
+  /* thread-per-connection after the gate has been opened for MHD_stop_daemon: the threads run concurrently and the
+     daemon thread frees connections, so the lists must not be walked from here */
+  if (free_running ()) printf ("free-running"); else put_snap ();
+  putchar ('\n');
   pthread_mutex_unlock (&out_mx);
 }
 void __wrap_MHD_connection_handle_read (struct MHD_Connection *c, bool socket_error)
@@ -672,6 +677,7 @@ static void t_put_block (int s)
           (0 == (ts[s].fds[0].events & (POLLIN | POLLOUT))) ? "e" : "", ts[s].timeout);
 }
 
+static int free_running (void) { return tgate_on && gate_free; }
 static void t_expect (int c) { if (tgate_on && c >= 0 && c < MAXC) { memset (&ts[c], 0, sizeof(ts[c])); ts[c].expect = 1; } }
 
 static void t_idle_hook (struct MHD_Connection *c)
